@@ -18,6 +18,9 @@ xical.vCategory = mlib.MCat
 xical.vDDDTypes = mlib.MDDD
 xical.TYPES_FACTORY = mlib.MFactory()
 
+# as_tz_aware_ts is replaced by the instant stand-in (checked separately in C11 `tz_aware`)
+xical.as_tz_aware_ts = lambda dt, default_timezone: mlib.tzify(dt)
+
 KINDS = ["VEVENT", "VTODO", "VJOURNAL"]
 COLLS = ["i;ascii-casemap", "i;octet"]
 NS = "urn:ietf:params:xml:ns:caldav"
@@ -171,3 +174,56 @@ def build_xml(shape, kindf, text, coll, negate, start, end):
     f.tzify = mlib.tzify
     xcal.parse_filter(root, f)
     return f
+
+
+# ---------------------------------------------------------------------------------------------------
+# Calendar members for the web-level report harness: concrete body tokens whose MEANING (component kind,
+# SUMMARY text) is looked up in a table of solver variables - the parser is bypassed (A6).
+QCAL_TABLE = {}
+
+
+class QCal(xical.ICalendarFile):
+    content_type = "text/calendar"
+
+    def validate(self):
+        pass
+
+    def normalized(self):
+        return self.content
+
+    def get_uid(self):
+        raise KeyError
+
+    def describe(self, name):
+        return name
+
+    @property
+    def calendar(self):
+        kind, summary, start = QCAL_TABLE[b"".join(self.content)]
+        sub = mlib.MComp(KINDS[kind], {"SUMMARY": mlib.MText(summary), "DTSTART": mlib.MDDD(mlib.DT(start))})
+        return mlib.MComp("VCALENDAR", {"VERSION": mlib.MText("2.0")}, [sub])
+
+
+def qcal_model(kind, summary, start):
+    return {"name": "VCALENDAR", "props": {}, "subs": [
+        {"name": KINDS[kind], "props": {"SUMMARY": {"kind": "text", "value": summary, "params": {}},
+                                         "DTSTART": {"kind": "dt", "value": start, "params": {}}}, "subs": []}]}
+
+
+def filter_xml(shape, kindf, text, coll, negate, start, end):
+    """CALDAV:filter element only (for requests through the web layer); time-range labels as in build_xml."""
+    _TR.table = {"t0": mlib.T(start), "t1": mlib.T(end)}
+    import xandikos.caldav as _x
+    captured = {}
+    orig = _x.parse_filter
+
+    def grab(filter_el, cls):
+        captured["el"] = filter_el
+        return cls
+
+    _x.parse_filter = grab
+    try:
+        build_xml(shape, kindf, text, coll, negate, start, end)
+    finally:
+        _x.parse_filter = orig
+    return captured["el"]
